@@ -119,6 +119,45 @@ Theorem E2E_jacobian_column :
       & (Wm n w *m mx_of n m P)^T *m mx_of n s M = 0].
 Proof. move=> F n m s w Y P C Dk; exact: num_jaccol_formula. Qed.
 
+(* C12 + C13 for the whole pipeline (one right-hand side): whenever fit_with_statistics returns Ok — for ANY script of
+   optimizer decisions and ANY (failing) model honouring the trait contract — the termination reason is a successful one,
+   the problem handed back shows the least-squares coefficients for the parameters a it reports, N > M + P,
+   dof = N - M - P, chi^2 dof = ||r_w||^2, r_w = W (y - Phi(a) c), and Cov = chi^2 (H^T H)^-1 with
+   H = W [Phi(a) | D_1(a) c | ... | D_P(a) c] (linear coefficients first) *)
+Theorem E2E_stats :
+  forall (F : realFieldType) (n m : nat) (V St : Type) (um : umodel V (smx F) St)
+         (Phi : V -> smx F) (D : nat -> V -> smx F),
+    faulty_functional um Phi D -> (forall a : V, wf n m (Phi a)) -> (forall k a, wf n m (D k a)) ->
+  forall np : nat, (forall st : St, um_nparams um st = np) ->
+  forall (jaccol : option (seq F) -> num_cache F -> smx F -> option (seq F)) (w : option (seq F)) (y : seq F)
+         (dec : num_cache F -> num_cache F -> bool) (script : seq (choice V)) (p p2 : num_problem F St)
+         (r : report V (num_cache F)) (c0 : num_cache F) (st : stats_spec F),
+    wok n w -> size y = n ->
+    p_w p = w -> p_Yw p = wscale w [:: y] ->
+    coherent um (num_solve n m) Phi p -> p_cached p = Some c0 ->
+    fit_with_statistics um (num_solve n m) jaccol dec (num_stats n m um y) script p = Some (FSOk p2 r st) ->
+  exists C R P : smx F,
+    let a := params um p2 in
+    let Ds := [seq D k a | k <- iota 0 np] in
+    let c := head [::] C in
+    [/\ successful (termination r) = true, p_cached p2 = Some (C, R, P)
+       & spec_coeffs n m w (Phi a) [:: y] = Some C] /\
+    [/\ (m + np < n)%N, st_dof st = (n - (m + np))%N,
+        st_chi2 st * (st_dof st)%:R = svnrm2 (st_rw st),
+        cv_of n (st_rw st) = Wm n w *m (cv_of n y - mx_of n m (Phi a) *m cv_of m c)
+      & let H := Wm n w *m mx_of n (m + np) (mfj n (Phi a) Ds c) in
+        H^T *m H \in unitmx /\ mx_of (m + np) (m + np) (st_cov st) = st_chi2 st *: invmx (H^T *m H)].
+Proof.
+move=> F n m V St um Phi D FF sh shD np hnp jaccol w y dec script p p2 r c0 st hw sy hpw hpY co hc0 hf.
+have [C [R [P /= [h1 h2 h3 hst]]]] := stats_end_to_end FF hnp hpw hpY co hc0 hf.
+exists C, R, P => /=; split=> //.
+set a := params um p2 in hst *; set Ds := [seq D k a | k <- iota 0 np] in hst *.
+have sD : size Ds = np by rewrite size_map size_iota.
+have hDs : all (wf n m) Ds by apply/allP => d /mapP [k _ ->]; exact: shD.
+have := @spec_stats_sound F n m w (Phi a) Ds y (head [::] C) hw (sh a) hDs sy st.
+by rewrite sD => /(_ hst).
+Qed.
+
 (* non-vacuity: a concrete model over the rationals (basis [1, a*x], x = 1,2,3), weights (1,2,1), two right-hand sides,
    a history with two updates: the premises hold and the final state does show coefficients and residuals *)
 Section Example.
@@ -155,6 +194,44 @@ Proof.
 split; [exact: ex_ff | by [] | by move=> c; rewrite /coherent /= => -> |].
 by vm_compute; do 4!eexists; split; reflexivity.
 Qed.
+
+
+(* ... and for the statistics: a rational model [1, 1/(1 + a x)], x = 1..5, weights (1,2,1,2,1), one right-hand side; the
+   optimizer stops at once (script: Orthogonal); fit_with_statistics returns Ok with 2 degrees of freedom and a positive
+   reduced chi^2 (stated through booleans: normalising a goal whose TYPES mention the field structure does not terminate in
+   reasonable time) *)
+Definition ex2_xs : seq Qc := [:: 1; 1 + 1; 1 + 1 + 1; 1 + 1 + 1 + 1; 1 + 1 + 1 + 1 + 1].
+Definition ex2_Phi (a : seq Qc) : smx Qc_realFieldType :=
+  let a0 := head 0 a in [:: nseq 5 1; [seq (1 + a0 * x)^-1 | x <- ex2_xs]].
+Definition ex2_D (k : nat) (a : seq Qc) : smx Qc_realFieldType :=
+  let a0 := head 0 a in [:: nseq 5 0; [seq - x * ((1 + a0 * x)^-1 * (1 + a0 * x)^-1) | x <- ex2_xs]].
+Definition ex2_um : umodel (seq Qc) (smx Qc_realFieldType) (seq Qc) :=
+  {| um_set := fun _ a => (a, true); um_params := fun st => st;
+     um_eval := fun st => (st, Some (ex2_Phi st)); um_deriv := fun st k => (st, Some (ex2_D k st));
+     um_nparams := fun _ => 1%N; um_nout := fun _ => 5%N |}.
+Definition ex2_w : option (seq Qc) := Some [:: 1; 1 + 1; 1; 1 + 1; 1].
+Definition ex2_y : seq Qc := [:: 1 + 1; 1; 1; 1 + 1; 0].
+Definition ex2_p0 : num_problem Qc_realFieldType (seq Qc) :=
+  {| p_st := [:: 1]; p_Yw := wscale ex2_w [:: ex2_y]; p_eps := tt; p_w := ex2_w;
+     p_cached := num_solve 5 2 ex2_w tt (ex2_Phi [:: 1]) (wscale ex2_w [:: ex2_y]) |}.
+Lemma ex2_ff : faulty_functional ex2_um ex2_Phi ex2_D.
+Proof.
+split.
+- by move=> st a st' [<-].
+- by move=> st st' r [<- <-]; split=> // f [<-].
+- by move=> st k st' r [<- <-]; split=> // d [<-].
+- by move=> st a st' ok [<- _].
+Qed.
+Lemma ex2_co : coherent ex2_um (num_solve 5 2) ex2_Phi ex2_p0.
+Proof. move=> c hc. exact (esym hc). Qed.
+Definition ex2_res :=
+  fit_with_statistics ex2_um (num_solve 5 2) (num_jaccol 5 2) (fun _ _ => true) (num_stats 5 2 ex2_um ex2_y)
+    [:: CStop Orthogonal] ex2_p0.
+Example E2E_stats_nonvacuous :
+  [/\ faulty_functional ex2_um ex2_Phi ex2_D, coherent ex2_um (num_solve 5 2) ex2_Phi ex2_p0,
+      (if p_cached ex2_p0 is Some _ then true else false) = true
+    & (if ex2_res is Some (FSOk _ _ st) then (st_dof st == 2%N) && (0 < st_chi2 st) else false) = true].
+Proof. split; [exact ex2_ff | exact ex2_co | by vm_compute | by vm_compute]. Qed.
 End Example.
 
 Print Assumptions E2E_history.
@@ -162,4 +239,6 @@ Print Assumptions E2E_update.
 Print Assumptions E2E_fit.
 Print Assumptions E2E_jacobian.
 Print Assumptions E2E_jacobian_column.
+Print Assumptions E2E_stats.
 Print Assumptions E2E_nonvacuous.
+Print Assumptions E2E_stats_nonvacuous.
